@@ -494,8 +494,10 @@ class Ex:
             h = self.cfg.lib_overrides.get(("format_" + val.kind,))
             if h is not None:
                 return h(self, val)
-        # any other formatted value: its text is not modelled
-        return self.st.fresh_str("fmt")
+        # any other formatted value: its text is not modelled (the event records WHICH value the text stands for)
+        t = self.st.fresh_str("fmt")
+        self.st.events.append(("fmt", t, val))
+        return t
 
     def ev_UnaryOp(self, e, fr):
         v = self.ev(e.operand, fr)
